@@ -103,10 +103,11 @@ fn check_pair(acc: &mut Acc, idx: usize, a: &Shape, b: &Shape, tag: &str) {
             }
         }
     }
-    if ab.to_bits() != ba.to_bits() {
+    // symmetric / the same for every wrapping: by value (-0.0 and 0.0 are the same distance)
+    if !(ab == ba) {
         acc.viol(format!("distance asymmetric {}{}x{}", tag, a.ty(), b.ty()), idx, wit);
     }
-    if ab.to_bits() != en.to_bits() {
+    if !(ab == en) {
         acc.viol(format!("distance enum!=concrete {}{}x{}", tag, a.ty(), b.ty()), idx, wit);
     }
 }
